@@ -747,6 +747,12 @@ def run_c16(pid, tier, rep, deadline_s):
     rep.coverage = merge_cov(cov, {'states': totals['cases'], 'transitions': totals['checks'], 'traces_validated_against_impl': totals['cases'], 'samples': samples, 'evaluations': totals['cases'], 'distinct_nontrivial': totals['cases'], 'bounds': bounds,
                                    'exhaustive': all(b['completed'] for b in bounds), 'rule': 'Compiled part: every functor writes a line into the stream that receives the verbose trace, and for each rule in turn its functor throws; on every input up to the bound the line announcing a reduction must precede the effects of that reduction\'s functor, no later trace line may appear before them, announced reductions and functor calls must match one to one, and a parse left by an exception must have announced the reduction whose functor threw.'})
 
+def run_c11(pid, tier, rep, deadline_s):
+    run_gram(pid, tier, rep, deadline_s); cov = dict(rep.coverage)
+    totals, samples, bounds, extra = run_progs(pid, rep, [dict(name='c11n', src='c11_names.cpp', label='diagnostics of grammars whose terms have display names different from their ids (named / typed / unnamed / empty-named regex terms, custom terms): every symbol mentioned is a declared display name')], deadline_s)
+    rep.coverage = merge_cov(cov, {'states': totals['cases'], 'transitions': totals['checks'], 'traces_validated_against_impl': totals['cases'], 'samples': samples, 'evaluations': totals['cases'], 'distinct_nontrivial': totals['cases'], 'bounds': bounds,
+                                   'exhaustive': all(b['completed'] for b in bounds), 'rule': 'Compiled part: write_diag_str of three grammars whose terms carry display names that differ from their internal ids; every symbol in the RULES section, in item lines (also the lookahead) and in action lines must be the display name of a declared symbol, no internal id may appear in the parser section, and the rule list must be complete.'})
+
 def run_c18(pid, tier, rep, deadline_s):
     run_gram(pid, tier, rep, deadline_s); cov = dict(rep.coverage)
     totals, samples, bounds, extra = run_progs(pid, rep, [dict(name='c18l', src='c18_long.cpp', label='custom lexer with 5 terms answering lengths 1..200000 (one-dimensional sweep): slices, positions and match() requests'),
@@ -900,6 +906,7 @@ def dispatch(pid, tier, rep, deadline):
         elif pid == 'C05': run_c05(pid, tier, rep, deadline)
         elif pid == 'C01': run_c01(pid, tier, rep, deadline)
         elif pid == 'C16': run_c16(pid, tier, rep, deadline)
+        elif pid == 'C11': run_c11(pid, tier, rep, deadline)
         elif pid == 'C18': run_c18(pid, tier, rep, deadline)
         elif pid == 'C02': run_c02(pid, tier, rep, deadline)
         elif pid == 'C09': run_c09(pid, tier, rep, deadline)
